@@ -71,7 +71,7 @@ class Table:
 
 LINE_BASE, LINE_RESET = 0, False        # how the scanner numbers lines (regenerated constants, set by the checks)
 
-GENERATED = ["LibErrors.lean", "ResolveGen.lean"]
+GENERATED = ["LibErrors.lean", "ResolveGen.lean", "ReportSites.lean"]
 
 
 def seed_generated():
@@ -442,11 +442,18 @@ def sw_arg(switches):
 UNMODELLED = {"IMPLICIT_DOWNCAST", "AMBIG_IMPLICIT_DOWNCAST"}
 
 
+# codes whose message text is garbage on trees without fixes/C20-5 (finding arg:GROUP_REF_UNEXPECTED_TYPE): presence, file and line
+# are compared, the text is judged by C20's oracle
+TEXT_BY_ORACLE_ONLY = {"GROUP_REF_UNEXPECTED_TYPE"}
+
+
 def canon(diags, with_lines=True, drop=ORDER_DEPENDENT):
     out = []
     for (code, f, line, msg, is_err) in diags:
         if code in drop or code in UNMODELLED:
             continue
+        if code in TEXT_BY_ORACLE_ONLY:
+            msg = "<text checked by the C20 oracle>"
         out.append((code, msg if "\x01" not in msg else "<ambient>", line if (with_lines and code not in LINE_UNMODELLED) else None, f))
     return sorted(out, key=lambda t: (t[0], t[1], -1 if t[2] is None else t[2], t[3] or ""))
 
